@@ -507,6 +507,55 @@ def oracle_splits(ctx, pool):
                          "(two places split the same unmatched items differently between added and removed)" % (cs, " (raised)" if raised else ""))
 
 
+def deep_shuffled(rng):
+    """lists nested three or four levels deep whose leaves are short int lists; t2 = t1 shuffled at EVERY level with a few
+    leaves changed: pairing at one level runs nested distance diffs that pair again below, so with a small
+    cache_tuning_sample_size the auto-tuner switches the cache off and on INSIDE a pairing call"""
+    def gen(depth):
+        if depth == 0:
+            return [rng.randrange(50) for _ in range(rng.randrange(3, 6))]
+        return [gen(depth - 1) for _ in range(rng.randrange(2, 5))]
+
+    def perturb(x, p):
+        if isinstance(x, list):
+            y = [perturb(i, p) for i in x]
+            rng.shuffle(y)
+            return y
+        return x + 100 if rng.random() < p else x
+    a = gen(rng.choice([2, 3, 3]))
+    return a, perturb(a, 0.12)
+
+
+def _tuning_task(args):
+    t1r, t2r = args
+    t1, t2 = c05.from_repr(t1r), c05.from_repr(t2r)
+    out = []
+    for rep in (False, True):
+        kw = dict(ignore_order=True, report_repetition=rep)
+        base = text_result(t1, t2, **kw)
+        for cs in (1, 2, 7, 5000):
+            for tune in (1, 2, 10):
+                got = text_result(t1, t2, cache_size=cs, cache_tuning_sample_size=tune, **kw)
+                out.append((rep, cs, tune, got == base, got.startswith("EXC ") and not base.startswith("EXC "), got[:300], base[:300]))
+    return t1r, t2r, out
+
+
+def oracle_tuning(ctx, pool, n):
+    """every (cache_size > 0) x (small cache_tuning_sample_size) on deeply nested shuffled inputs: the auto-tuner flips
+    DISTANCE_CACHE_ENABLED between the lookup and the store of one memoised call"""
+    docs = [deep_shuffled(ctx.rng) for _ in range(n)]
+    for t1r, t2r, out in pool.map(_tuning_task, [(repr(a), repr(b)) for a, b in docs], chunksize=1):
+        for rep, cs, tune, same, raised, got, base in out:
+            ctx.seen((t1r, t2r, True, rep, cs, tune, 1, "deep-shuffled"))
+            ctx.count("tuning:settings")
+            if not same:
+                ctx.fail({"kind": "settings", "t1": t1r, "t2": t2r, "ignore_order": True, "report_repetition": rep, "cache_size": cs,
+                          "cache_tuning_sample_size": tune, "cache_purge_level": 1, "extra_knobs": {}, **({"raised": True} if raised else {}),
+                          "with_cache": got, "without_cache": base},
+                         "the result with cache_size=%r cache_tuning_sample_size=%r differs from the result without cache%s "
+                         "(deeply nested shuffled lists: the cache is switched off and on inside a pairing)" % (cs, tune, " (raised)" if raised else ""))
+
+
 def gen_inputs(rng, n_planted, n_other):
     out = [split_shape(rng) + ("split",) for _ in range(max(2, n_planted // 3))]
     out[1:1] = [tie_shape(rng) + ("tie",)]
@@ -1553,6 +1602,7 @@ def run(ctx):
         t0 = time.time()
         oracle_grid(ctx, inputs, pool, full=ctx.thorough)
         oracle_splits(ctx, pool)
+        oracle_tuning(ctx, pool, 150 if ctx.thorough else 48)
         tm["grid"] = round(time.time() - t0, 1)
         t0 = time.time()
         oracle_hashes(ctx, pool, core.NCPU, 12 if ctx.thorough else 3, 6 if ctx.thorough else 2)
